@@ -25,5 +25,8 @@ struct ProfileCfg {
 
 ProfileCfg profile_by_name(const std::string &name, const std::string &prop, int tier);
 Plan gen_plan(const ProfileCfg &pc, uint64_t run_seed);
+Plan gen_plan_entry(const ProfileCfg &pc, uint64_t run_seed);
+Plan gen_plan_sgl(const ProfileCfg &pc, uint64_t run_seed);
+Plan gen_plan_keyprep(const ProfileCfg &pc, uint64_t run_seed);
 // a random applicable violation id for spec (0 if none)
 int pick_violation(Rng &r, const JobSpec &s);
